@@ -40,7 +40,7 @@ var props = map[string]propMeta{
 	},
 	"C02": {
 		Level: "fault_enumeration",
-		Rule: "family stops: for a seeded base run of the publish flow (both levels, light fault mix) with K storage operations after InitSession, the same seed is re-run 2K times with the process stopped before and after every Save/Delete/Load/List (an interrupted Save or Delete reaches the medium or not by draw), then AdoptSession on the frozen image against the same broker model, 2-4 incarnations with fresh publishes in each, later stops (also inside AdoptSession itself) at drawn operation boundaries; family anywhere: stops at any scheduler step; family wrap: constructed images with the pending ranges at the 14-bit identifier wrap-around; family fs-store: the same session on the real FileSystem store over the simulated os, killed at a drawn system call (entry, exit, or inside the data write after a drawn byte count). Oracle at the adopted client's first Online: lower (accepted, final acknowledgement not handed over) is a subset of the resumed set, which is a subset of upper (lower + still stored), original identifiers and order, stage PUBREL exactly when the stored record is a PUBREL; no warnings or fatal; nothing lost and no exactly-once duplicate after the last incarnation quiesced." + distinctRule + " non-trivial = a transfer was resumed after a restart",
+		Rule: "family stops: for a seeded base run of the publish flow (both levels, light fault mix) with K storage operations after InitSession, the same seed is re-run 2K times with the process stopped before and after every Save/Delete/Load/List (an interrupted Save or Delete reaches the medium or not by draw), then AdoptSession on the frozen image against the same broker model, 2-4 incarnations with fresh publishes in each, later stops (also inside AdoptSession itself) at drawn operation boundaries; family anywhere: stops at any scheduler step; family wrap: constructed images with the pending ranges at the 14-bit identifier wrap-around; in 35 % of the runs with three or more incarnations PUBACK and PUBCOMP are withheld in every incarnation but the last, so that transfers stay open across several stops while newer ones overtake them; family fs-store: the same session on the real FileSystem store over the simulated os, killed at a drawn system call (entry, exit, or inside the data write after a drawn byte count). Oracle at the adopted client's first Online: lower (accepted, final acknowledgement not handed over) is a subset of the resumed set, which is a subset of upper (lower + still stored), original identifiers and order, stage PUBREL exactly when the stored record is a PUBREL; no warnings or fatal; nothing lost and no exactly-once duplicate after the last incarnation quiesced." + distinctRule + " non-trivial = a transfer was resumed after a restart",
 		Assumptions: append([]string{"the crash model is a process stop: the Persistence keeps exactly what completed operations wrote, plus possibly the one operation in progress", "sweeps are complete over the storage-operation boundaries of each sampled base run, not over all base runs"}, flowAssumptions...),
 		Probes:      []string{"resumed_after_restart", "second_restart_checked", "stop_before_op", "stop_after_op", "stop_anywhere", "stop_inside_write", "stop_before_syscall", "stop_after_syscall"},
 		QuickS:      25, ThoroughS: 400,
@@ -54,44 +54,44 @@ var props = map[string]propMeta{
 	},
 	"C05": {
 		Level: "exploration",
-		Rule: "seeded runs with one sequential publisher (exact order) or 2-6 concurrent publishers (per-goroutine and real-time order, wire order = identifier order), both levels, breaks and failed connects; oracles over the wire log: consecutive identifiers at first appearance, resend order, DUP exactly on retransmissions of completely written packets, completion order." + distinctRule + " non-trivial = a fault fired and a retransmission carried DUP",
+		Rule: "seeded runs with one sequential publisher (exact order) or 2-6 concurrent publishers (per-goroutine and real-time order, wire order = identifier order), both levels, breaks and failed connects; family wrap: constructed images with the pending ranges at the 14-bit wrap-around, 2-3 incarnations, new publishes queued behind the resumed ones; oracles over the wire log: consecutive identifiers at first appearance, resend order, DUP exactly on retransmissions of completely written packets, completion order." + distinctRule + " non-trivial = a fault fired and a retransmission carried DUP",
 		Assumptions: flowAssumptions,
-		Probes:      []string{"resend_carried_dup", "retransmitted"},
+		Probes:      []string{"resend_carried_dup", "retransmitted", "pending_range_straddles_wrap"},
 		QuickS:      20, ThoroughS: 300,
 	},
 	"C04": {
 		Level: "exploration",
-		Rule: "seeded runs with 1-8 inbound messages (mostly exactly-once) from the reference broker, which retransmits PUBLISH (DUP) and PUBREL on reconnect; breaks after client acknowledgements were written but before the broker consumed them; oracles: no return of a message while its marker is stored, every broker-side handshake completes in the quiescence phase." + distinctRule + " non-trivial = a fault fired and the broker retransmitted an exactly-once PUBLISH",
+		Rule: "seeded runs with 1-8 inbound messages (mostly exactly-once) from the reference broker, which retransmits PUBLISH (DUP) and PUBREL on reconnect; breaks after client acknowledgements were written but before the broker consumed them; in half of the runs the broker reuses an identifier as soon as its transaction is complete and keeps an in-flight window of 1-3 messages, in half of those storage errors are concentrated on the late operations of a cycle; oracles: no return of a message while its marker is stored, no second return of a message within one process, a message confirmed with PUBREC was returned at some time (a leftover reception record must not swallow the next message with that identifier), every broker-side handshake completes in the quiescence phase." + distinctRule + " non-trivial = a fault fired and the broker retransmitted an exactly-once PUBLISH",
 		Assumptions: flowAssumptions,
-		Probes:      []string{"q2_retransmission_seen", "q2_duplicate_completed", "unread_input_lost"},
+		Probes:      []string{"q2_retransmission_seen", "q2_duplicate_completed", "unread_input_lost", "identifier_reused", "disk_err_before_D"},
 		QuickS:      20, ThoroughS: 300,
 	},
 	"C06": {
 		Level: "exploration",
-		Rule: "seeded well-formed inbound streams (all packet types a broker sends, topics up to the read buffer, payloads 0, around the read buffer +-8, 1-3 buffers; read buffer 16 B..128 KiB) cut into reads by the tape (1-byte reads, coalescing, progress-making deadline expiries at drawn cuts), BigMessage read or skipped; no other fault, so any ReadSlices error is a violation; oracle: returned (topic, message) sequence equals the sent PUBLISH sequence byte for byte." + distinctRule + " non-trivial = a progress-making expiry or a short read fired and a message beyond the read buffer was received",
+		Rule: "seeded well-formed inbound streams (all packet types a broker sends, topics up to the read buffer, payloads 0, around the read buffer +-8, 1-3 buffers; read buffer 16 B..128 KiB) cut into reads by the tape (1-byte reads, coalescing, progress-making deadline expiries at drawn cuts), BigMessage read or skipped; no other fault, so any ReadSlices error is a violation; oracle: returned (topic, message) sequence equals the sent PUBLISH sequence byte for byte. family redelivery: connection loss in the middle of inbound traffic (mostly exactly-once, a third of the messages beyond the read buffer); oracle per connection: the returns follow the PUBLISH packets queued on it in order, only exactly-once retransmissions of a message returned before are passed over, and what follows a suppressed duplicate or an unread BigMessage is not lost." + distinctRule + " non-trivial = a progress-making expiry or a short read fired and a message beyond the read buffer was received",
 		Assumptions: flowAssumptions,
-		Probes:      []string{"progress_making_expiry", "big_message", "big_message_skipped", "short_read"},
+		Probes:      []string{"progress_making_expiry", "big_message", "big_message_skipped", "short_read", "duplicate_suppressed", "big_duplicate_suppressed", "return_matches_stream"},
 		QuickS:      20, ThoroughS: 300,
 	},
 	"C07": {
 		Level: "exploration",
-		Rule: "seeded mixed inbound streams with the application pausing after any return (harness park point between a ReadSlices return and the next invocation), BigMessage read or skipped, failing acknowledgement writes, concurrent outbound requests; oracle on the wire log: a PUBACK/PUBREC is written only after ReadSlices was invoked again, carries a returned message's identifier, and every returned message is acknowledged by the end of the quiescence phase." + distinctRule + " non-trivial = a fault fired and an acknowledgement was sent on a later connection than the delivery",
+		Rule: "seeded mixed inbound streams with the application pausing after any return (harness park point between a ReadSlices return and the next invocation), BigMessage read or skipped, failing acknowledgement writes, concurrent outbound requests; oracle on the wire log: a PUBACK/PUBREC is written only after ReadSlices was invoked again, carries a returned message's identifier, and every returned message is acknowledged by the end of the quiescence phase; in half of the runs the broker postpones the retransmission of messages the application holds unacknowledged (no deadline in the specification), so that the acknowledgement on the new connection has to come from the client's own pending state; in 40 % the broker reuses identifiers (acknowledgements are matched to the oldest return with that identifier that has none on a wire yet)." + distinctRule + " non-trivial = a fault fired and an acknowledgement was sent on a later connection than the delivery",
 		Assumptions: flowAssumptions,
-		Probes:      []string{"ack_after_ownership", "ack_on_new_connection"},
+		Probes:      []string{"ack_after_ownership", "ack_on_new_connection", "retransmission_withheld", "identifier_reused"},
 		QuickS:      20, ThoroughS: 300,
 	},
 	"C09": {
 		Level: "exploration",
-		Rule: "input sampling, said plainly: no schedule or fault decides this property. Each run draws a Config (user name without/with password, password only, empty password, will with empty/non-empty message, retain and both QoS flags, keep-alive 0/1/60/65535, clean session) and a client identifier, connects against the reference broker and issues 2-7 requests with boundary-biased arguments (string lengths 1, 127, 128, 65534, 65535; multi-byte and control characters; payloads across the remaining-length width boundaries 127/128, 16383/16384, 2097151/2097152; 1-4 filters; each level limit), decoding every packet on the wire with the independent strict codec and comparing all fields; 35 % of the requests carry an invalid argument (empty, ten kinds of ill-formed UTF-8, U+0000, 65536 bytes, no filters) and must be denied with IsDeny without a byte written or a storage operation; illegal Config strings must be refused by the constructor; denials do not consume capacity (maximum 1; 40 denied subscribes)." + distinctRule + " non-trivial = every run (each draws a distinct configuration and argument set)",
+		Rule: "input sampling, said plainly: no schedule decides this property, and the one fault dimension it has is a transport that accepts packets in pieces (30 % of the runs: a prefix, then the write deadline; the client has to continue where it stopped). Each run draws a Config (user name without/with password, password only, empty password, will with empty/non-empty message, retain and both QoS flags, keep-alive 0/1/60/65535, clean session) and a client identifier, connects against the reference broker and issues 2-7 requests with boundary-biased arguments (string lengths 1, 127, 128, 65534, 65535; the first and last code point of every UTF-8 length, U+FFFD itself, non-characters and control characters; payloads across the remaining-length width boundaries 127/128, 16383/16384, 2097151/2097152; 1-4 filters; each level limit), decoding every packet on the wire with the independent strict codec and comparing all fields; 35 % of the requests carry an invalid argument (empty, ten kinds of ill-formed UTF-8, U+0000, 65536 bytes, no filters) and must be denied with IsDeny without a byte written or a storage operation; illegal Config strings must be refused by the constructor; denials do not consume capacity (maximum 1; 40 denied subscribes)." + distinctRule + " non-trivial = every run (each draws a distinct configuration and argument set)",
 		Assumptions: []string{"the 268,435,455-byte packet boundary is not exercised (the wire log would have to hold it); the three smaller remaining-length boundaries are", "the reference codec is correct with respect to MQTT 3.1.1"},
-		Probes:      []string{"connect_decoded", "decoded_PUBLISH", "decoded_SUBSCRIBE", "decoded_UNSUBSCRIBE", "remaining_length_multi_byte", "invalid_ill-formed-utf8", "invalid_nul", "invalid_over-65535", "invalid_empty", "invalid_no-filters", "illegal_config"},
+		Probes:      []string{"connect_decoded", "decoded_PUBLISH", "decoded_SUBSCRIBE", "decoded_UNSUBSCRIBE", "remaining_length_multi_byte", "invalid_ill-formed-utf8", "invalid_nul", "invalid_over-65535", "invalid_empty", "invalid_no-filters", "illegal_config", "short_write_timeout"},
 		QuickS:      15, ThoroughS: 200,
 	},
 	"C10": {
 		Level: "exploration",
-		Rule: "seeded runs with inbound QoS 1/2 traffic (the reader owes PUBACK, PUBREC, PUBCOMP, PUBREL) plus writer tasks of every request type; write failures of other goroutines at drawn points, read errors, EOF, expiries, failed dials and handshakes; oracle: bounded liveness (the client serves again within L simulated time and S steps once faults stop) and the documented ReadBackoff rules." + distinctRule + " non-trivial = a write failed or timed out",
+		Rule: "seeded runs with inbound QoS 1/2 traffic (the reader owes PUBACK, PUBREC, PUBCOMP, PUBREL) plus writer tasks of every request type; write failures of other goroutines at drawn points, read errors, EOF, expiries, failed dials and handshakes; family partition: the connection goes silent without reset, preferably inside a large inbound packet (only PauseTimeout lets the client notice; the reset that ends the partition is withheld from a client that has those means once faults have stopped); oracle: bounded liveness (the client serves again within L simulated time and S steps once faults stop) and the documented ReadBackoff rules." + distinctRule + " non-trivial = a write failed or timed out",
 		Assumptions: flowAssumptions,
-		Probes:      []string{"write_break", "short_write_timeout", "backoff_checked", "read_expiry", "dial_fail"},
+		Probes:      []string{"write_break", "short_write_timeout", "backoff_checked", "read_expiry", "dial_fail", "partition", "partition_inside_packet"},
 		QuickS:      20, ThoroughS: 300,
 	},
 	"C08": {
@@ -103,9 +103,9 @@ var props = map[string]propMeta{
 	},
 	"C11": {
 		Level: "exploration",
-		Rule: "seeded runs with 2-7 requester tasks issuing Subscribe/Unsubscribe/Ping (quit nil, open, closed before, closed during), broker failing a subset of filters, connection loss at any point; oracles: a result needs that request's own response handed to the client before the return, SubscribeError lists exactly the failed filters in order, every call has returned when the quiescence phase ends." + distinctRule + " non-trivial = a fault fired and a request was answered or a quit was closed during a request",
+		Rule: "seeded runs with 2-7 requester tasks issuing Subscribe/Unsubscribe/Ping (quit nil, open, closed before, closed during), broker failing a subset of filters, connection loss at any point; family ping-slot: 3-5 tasks issuing Ping with every kind of quit behind a busy write lock; family id-window: the answer to the first SUBSCRIBE is held while 8,191 UNSUBSCRIBE round trips take the identifier counter once around, then a second SUBSCRIBE with a failing filter; a run that comes to rest with a call outstanding while the environment withholds nothing is judged as the end of a quiescence phase (hung callers); oracles: a result needs that request's own response handed to the client before the return, SubscribeError lists exactly the failed filters in order, every call has returned when the quiescence phase ends." + distinctRule + " non-trivial = a fault fired and a request was answered or a quit was closed during a request",
 		Assumptions: flowAssumptions,
-		Probes:      []string{"answered_request", "answered_ping", "subscribe_error_mapped", "quit_closed_during_request"},
+		Probes:      []string{"answered_request", "answered_ping", "subscribe_error_mapped", "quit_closed_during_request", "identifier_window_wrapped", "pong_meets_unsubmitted_ping", "goroutine_held_back"},
 		QuickS:      20, ThoroughS: 300,
 	},
 	"C12": {
@@ -131,7 +131,7 @@ var props = map[string]propMeta{
 	},
 	"C15": {
 		Level: "fault_enumeration",
-		Rule: "always-on monitor: every value handed to Save is checked against the documented layout (packet || 8-byte little-endian sequence number || 4-byte big-endian FNV-1a over both, recomputed independently) with strictly increasing sequence numbers. family single-byte: a seeded base run leaves 1-3 outbound records (PUBLISH and PUBREL, 40-70 bytes) pending at a stop; the same seed is re-run once per case for EVERY byte position x all 255 other values and EVERY truncation length of every record, applied to the image before AdoptSession; family load-damage: one byte of a Load result is altered (or the result truncated) at drawn instants (resend, marker lookup, client-identifier load, AdoptSession). Oracles: a single-byte alteration or a value under 12 bytes is reported (warning or error), every PUBLISH/PUBREL on a wire equals a packet genuinely saved under that key, CONNECT carries the original client identifier." + distinctRule + " non-trivial = damage was applied and reported",
+		Rule: "always-on monitor: every value handed to Save is checked against the documented layout (packet || 8-byte little-endian sequence number || 4-byte big-endian FNV-1a over both, recomputed independently) with strictly increasing sequence numbers. family single-byte: a seeded base run leaves 1-3 outbound records (PUBLISH and PUBREL, 40-70 bytes) pending at a stop; the same seed is re-run once per case for EVERY byte position x all 255 other values and EVERY truncation length of every record, applied to the image before AdoptSession; family layout: 2-4 publishers at both levels plus inbound exactly-once traffic, i.e. concurrent Save calls from several goroutines; family load-damage: one byte of a Load result is altered (or the result truncated) at drawn instants (resend, marker lookup, client-identifier load, AdoptSession). Oracles: a single-byte alteration or a value under 12 bytes is reported (warning or error), every PUBLISH/PUBREL on a wire equals a packet genuinely saved under that key, CONNECT carries the original client identifier." + distinctRule + " non-trivial = damage was applied and reported",
 		Assumptions: append([]string{"the single-byte and truncation enumeration is complete for each sampled base image (all records, all positions, all values), not over all images; detection of truncations of 12 bytes or more and of multi-byte damage is measured, not claimed (32-bit checksum)"}, flowAssumptions...),
 		Probes:      []string{"record_layout_checked", "damage_reported", "load_damaged", "damage_alter_publish", "damage_alter_pubrel", "damage_truncate_publish"},
 		QuickS:      25, ThoroughS: 400,
